@@ -224,6 +224,23 @@ func checkC11(r *Result) {
 				okAll = false
 			}
 		}
+		// the term of a reporter that is already in jail is not rewritten: a later, shorter term (a warning
+		// dispute after a minor one) would otherwise cut the running ten minutes short
+		{
+			psJ := AnalyzePaths(rj, []Atom{{Name: "alreadyJailed", Cond: func(rel *Term) (bool, bool) {
+				return strings.HasSuffix(rel.Op, "OracleReporter.Jailed"), true
+			}}})
+			nSet := 0
+			for _, cs := range P.Sites(descIs("coll:x/reporter/keeper.Keeper.Reporters.Set")) {
+				if TopFunc(cs.Fn) != rj {
+					continue
+				}
+				nSet++
+				bad := psJ.Require(cs.Instr, func(v map[string]bool) bool { return !v["alreadyJailed"] })
+				r.check(len(bad) == 0 && len(psJ.Matched["alreadyJailed"]) > 0, "JAIL", "(x/reporter/keeper.Keeper).JailReporter # the jail term is written only for a reporter that is not in jail already", P.Pos(cs.Pos()), fmt.Sprintf("valuations: %v", statesStr(psJ, cs.Instr)))
+			}
+			r.check(nSet == 1, "JAIL", "(x/reporter/keeper.Keeper).JailReporter # one store of the record", P.Pos(rj.Pos()), fmt.Sprint(nSet))
+		}
 		r.check(okAll && nret > 0, "JAIL", "(x/reporter/keeper.Keeper).JailReporter # every success return has stored the record with the new jail term", P.Pos(rj.Pos()), fmt.Sprintf("%d success returns", nret))
 	}
 	// ---- ONCE-SLASH
